@@ -117,7 +117,7 @@ pub fn op_strategy(p: &Profile) -> impl Strategy<Value = Op> {
     add(p.encaps, (any::<u16>(), ap(), bad(b)).prop_map(|(mpk, ap, bad)| Op::Encaps { mpk, ap, bad }).boxed());
     add(p.encaps_for, (any::<u16>(), any::<u16>(), any::<u8>()).prop_map(|(mpk, usk, variant)| Op::EncapsFor { mpk, usk, variant }).boxed());
     add(p.check, Just(Op::Check).boxed());
-    add(p.roundtrip, (0u8..4, any::<u16>()).prop_map(|(what, sel)| Op::RoundTrip { what, sel }).boxed());
+    add(p.roundtrip, (prop_oneof![3 => Just(0u8), 1 => Just(1u8), 2 => Just(2u8), 1 => Just(3u8)], any::<u16>()).prop_map(|(what, sel)| Op::RoundTrip { what, sel }).boxed());
     add(p.recaps, (any::<u16>(), any::<u16>()).prop_map(|(enc, mpk)| Op::Recaps { enc, mpk }).boxed());
     add(p.stale, (0u8..6, any::<u16>(), any::<bool>()).prop_map(|(back, usk, keep)| Op::ProbeStale { back, usk, keep }).boxed());
     add(p.forged, (any::<u16>(), 0u8..5, any::<bool>()).prop_map(|(usk, kind, keep)| Op::ProbeForged { usk, kind, keep }).boxed());
@@ -141,6 +141,7 @@ pub struct Outcome {
     pub counters: std::collections::BTreeMap<&'static str, u64>,
     pub outcomes_after_roundtrip: u64,
     pub off_property: Option<String>,
+    pub soft: Vec<String>,
 }
 
 /// Apply the base structure to a fresh world (real API + model in lock-step) and update.
@@ -178,6 +179,7 @@ pub fn execute(focus: &str, case: &HistCase) -> Result<Outcome, Fail> {
                 counters: Default::default(),
                 outcomes_after_roundtrip: 0,
                 off_property: Some(s),
+                soft: vec![],
             })
         }
     };
@@ -192,6 +194,7 @@ pub fn execute(focus: &str, case: &HistCase) -> Result<Outcome, Fail> {
         counters: w.counters.clone(),
         outcomes_after_roundtrip: w.outcomes_after_roundtrip,
         off_property: None,
+        soft: w.off_soft.borrow().clone(),
     };
     match r {
         Ok(()) => Ok(out),
@@ -231,6 +234,9 @@ pub fn check_case(hc: &HistCheck, case: &HistCase, col: &Collector) -> CheckResu
             } else {
                 col.class_n(&format!("op:{k}"), *v);
             }
+        }
+        for s in &out.soft {
+            col.off_property(s);
         }
         if let Some(s) = &out.off_property {
             col.off_property(s);
